@@ -57,6 +57,7 @@ type Run struct {
 	sampleKinds map[string]int
 	violations  []*Violation
 	violKeys    map[string]bool
+	violClass   map[string]int64
 	nViol       int64
 	findings    []*finding
 	exhaustive  bool
@@ -78,7 +79,7 @@ func Main(id, level string, body func(r *Run)) {
 	seed, _ := strconv.ParseInt(os.Getenv("VERIF_SEED"), 10, 64)
 	r := &Run{ID: id, Tier: *tier, Level: level, Seed: seed, ReplayPath: *replay, start: time.Now(),
 		nontrivial: map[[16]byte]struct{}{}, states: map[[16]byte]struct{}{}, outcomes: map[string]int64{},
-		counters: map[string]int64{}, sampleKinds: map[string]int{}, violKeys: map[string]bool{},
+		counters: map[string]int64{}, sampleKinds: map[string]int{}, violKeys: map[string]bool{}, violClass: map[string]int64{},
 		exhaustive: true, extra: map[string]interface{}{}, replayers: map[string]func(json.RawMessage) error{}}
 	r.loadFindings()
 	defer func() {
@@ -279,7 +280,15 @@ func (r *Run) Violation(key, what, kind string, input interface{}) bool {
 	r.mu.Lock()
 	defer r.mu.Unlock()
 	r.nViol++
-	if r.violKeys[key] || len(r.violations) >= 25 {
+	class := key
+	if i := strings.IndexByte(key, ':'); i >= 0 {
+		class = key[:i]
+		if j := strings.IndexByte(key[i+1:], ':'); j >= 0 {
+			class = key[:i+1+j]
+		}
+	}
+	r.violClass[class]++
+	if r.violKeys[key] || len(r.violations) >= 40 || r.violClass[class] > 3 {
 		return true
 	}
 	r.violKeys[key] = true
@@ -427,7 +436,7 @@ func (r *Run) finish() {
 		for _, v := range r.violations {
 			fmt.Printf("  violation: %s :: %s\n", v.Key, v.What)
 		}
-		fmt.Printf("  (%d violating cases in total, %d distinct keys written)\n", r.nViol, len(r.violations))
+		fmt.Printf("  (%d violating cases in total, %d written; by class: %v)\n", r.nViol, len(r.violations), r.violClass)
 		for _, v := range r.violations {
 			fmt.Printf("VIOLATION property=%s replay=%s\n", r.ID, v.Replay)
 		}
